@@ -2,6 +2,7 @@ package pass1
 
 import (
 	"fmt" // Import fmt for Sprintf
+	"log"
 
 	"github.com/HobbyOSs/gosk/internal/ast" // Change import to ast
 )
@@ -11,6 +12,11 @@ import (
 func processNoParam(env *Pass1, operands []ast.Exp, instName string) { // Add instName parameter
 	// パラメータを取らない命令（HLT等）は通常1バイト。
 	// TODO: 命令によっては1バイトでない場合もあるため、将来的には命令名をenv.AsmDBで調べるべき。
+	if len(operands) != 0 {
+		// the one-byte table has no form with operands: report the statement instead of dropping them
+		log.Printf("error: %s takes no operands, got %d", instName, len(operands))
+		return
+	}
 	env.LOC += 1
 	// Emit the instruction name as ocode (改行なし).
 	env.Client.Emit(fmt.Sprintf("%s", instName)) // Remove newline
